@@ -329,3 +329,56 @@ def key_prologue(n: int) -> bool:
         want = b'\xff' * 16 if not n else (params * 16)[:16]
         tick('key_prologue', n)
         return got == [want]
+
+
+# --------------------------------------------------------------------------- W.big: blocks of many MiB (C11_e)
+BIG_PARAMS = [(65536, 1 << 20), (4096, 1 << 16), (1 << 20, 5 << 20)]
+BIG_TOTALS = [9 * (1 << 20) + 5, 1 << 23, 17 * (1 << 20) + 123]
+BIG_SEGS = [[1 << 20], [4 << 20], [3 * (1 << 20) + 7], [16_777_216]]
+
+
+def big_case(pi, ti, si, seed):
+    """A stream of 8..17 MiB handed over as ONE block and in blocks of 1 MiB / 4 MiB / 3 MiB+7 / 16 MiB (the read piece of
+    snapshot): lossless, bounded, and the chunks that start before the tail zone are the same for every blocking."""
+    import random
+    mn, mx = BIG_PARAMS[pi]
+    total = BIG_TOTALS[ti]
+    data = random.Random(seed + 1).randbytes(total)
+    step = BIG_SEGS[si][0]
+    pieces = [data[i:i + step] for i in range(0, total, step)]
+    key = bytes(range(3, 19))
+    ref = run_wrapper(mn, mx, [data], native_factory, params=key)
+    out = run_wrapper(mn, mx, pieces, native_factory, params=key)
+
+    def heads(res):
+        pos, h = 0, []
+        for x in res:
+            if pos < total - 2 * mx:
+                h.append((pos, len(x)))
+            pos += len(x)
+        return h
+    for res, label in ((ref, 'one block'), (out, f'blocks of {step}')):
+        if b''.join(res) != data:
+            return False, f'{label}: concatenation differs'
+        for pos, n in heads(res):
+            if not (mn <= n <= mx and n % 4 == 0):
+                return False, f'{label}: chunk of {n} bytes at {pos} outside the tail zone'
+    ha, hb = heads(ref), heads(out)
+    if ha != hb:
+        d = next((a, b) for a, b in zip(ha + [None], hb + [None]) if a != b)
+        return False, f'({mn},{mx}), {total} bytes: chunks outside the tail zone depend on the blocking (one block vs blocks of {step}): first difference {d}'
+    return True, ''
+
+
+def w_big(k: int) -> bool:
+    """
+    pre: shard(3 * 3 * 4 * 2)[0] <= k < shard(3 * 3 * 4 * 2)[1]
+    post: _
+    """
+    pi, ti, si, seed = digits(k, [3, 3, 4, 2])
+    with NoTracing():
+        ok, msg = big_case(pi, ti, si, seed)
+        tick('w_big', [pi, ti, si, seed])
+        if not ok:
+            _say(msg)
+        return ok
